@@ -26,7 +26,7 @@ func (ex *Exec) globalInit(st *State, g *ssa.Global) Value {
 	if g.Pkg != nil {
 		key = g.Pkg.Pkg.Path() + "." + g.Name()
 	}
-	if snap, ok := ex.Globals[key]; ok && !snapIsOpaque(snap) {
+	if snap, ok := ex.Globals[key]; ok && !snapIsOpaque(snap) && !ex.snapIsFuncMap(snap, t, key) {
 		cache := map[float64]int{}
 		return ex.decodeSnap(st, snap, t, key, cache)
 	}
